@@ -745,6 +745,14 @@ def summarise(t):
                 if isinstance(init, tuple) and init and init[0] == "try" and isinstance(init[1], tuple) and init[1][0] == "var":
                     env[name] = subst_vars(init[1], env)
                     continue
+                e_rm = M(("call", "Vec::remove", "?v", ("lit", "?k", "usize")), subst_vars(init, env))
+                if e_rm is not None:
+                    # taking an element out of a vector is order-sensitive: keep it as an event
+                    counter[0] += 1
+                    sym = ("R%d" % counter[0],)
+                    events.append(("vecremove", e_rm["?v"], int(e_rm["?k"]), sym))
+                    env[name] = sym
+                    continue
                 if init == ("call", "Token.get_oper_prec", SELF_CUR) and not any(e_[0] not in ("branch", "cond", "stmt") for e_ in events) and not outer_effects[0]:
                     # the category of the token the arm was selected by, read before anything is consumed
                     env[name] = ("curcat",)
